@@ -6,6 +6,12 @@ assembly of each probe finds the *live-in* registers (read before written) and t
 stack pointer (prologue adjustments are tracked), i.e. where the compiler expects the argument.  `build/bin/c06_abi` prints
 what FuncDetail says for the same signature.  Everything is a pure function of the seed.
 
+Variadic signatures additionally get a caller-side probe (`void sKcx(void){ sKcallee(vsK_0, vsK_1, ...); }`, every argument its own
+global): a forward data-flow pass over the caller finds, for EVERY argument, the register or the outgoing stack slot (relative to sp at
+the call instruction) that holds it - this is how the unnamed arguments are located on all targets.  On Apple arm64 a callee that walks
+its va_list with va_arg for the whole unnamed type sequence (`sKwx`) gives the callee-side view, and rule_unnamed_locations() is the
+written ABI rule; AsmJit is judged against each reference, references that disagree among themselves are never used.
+
 Custom-runner protocol: run(part, tier, seed, pdir, rep_dir, known_keys, log) / replay(part, path, known_keys).
 """
 import os, re, sys, json, random, struct, subprocess, hashlib, fnmatch
@@ -50,8 +56,8 @@ ABIS = [
     dict(name="sysv64", env="x64linux", ccid=32, triple="x86_64-linux-gnu", arch="x64", attr="", ints=INTS, vec=[16, 32, 64], va=True),
     dict(name="sysv64-cdecl", env="x64linux", ccid=0, triple="x86_64-linux-gnu", arch="x64", attr="", ints=INTS, vec=[16, 32, 64], va=True, keyas="sysv64", weight=0.25),
     dict(name="win64", env="x64win", ccid=33, triple="x86_64-pc-windows-msvc", arch="x64", attr="", ints=INTS, vec=[16, 32, 64], va=True, positional=True),
-    dict(name="win64-on-linux", env="x64linux", ccid=33, triple="x86_64-linux-gnu", arch="x64", attr="ms_abi", ints=INTS, vec=[16, 32, 64], keyas="win64", weight=0.25, positional=True),
-    dict(name="sysv64-on-win", env="x64win", ccid=32, triple="x86_64-pc-windows-msvc", arch="x64", attr="sysv_abi", ints=INTS, vec=[16, 32, 64], keyas="sysv64", weight=0.25),
+    dict(name="win64-on-linux", env="x64linux", ccid=33, triple="x86_64-linux-gnu", arch="x64", attr="ms_abi", ints=INTS, vec=[16, 32, 64], va=True, keyas="win64", weight=0.25, positional=True),
+    dict(name="sysv64-on-win", env="x64win", ccid=32, triple="x86_64-pc-windows-msvc", arch="x64", attr="sysv_abi", ints=INTS, vec=[16, 32, 64], va=True, keyas="sysv64", weight=0.25),
     dict(name="vectorcall64", env="x64win", ccid=3, triple="x86_64-pc-windows-msvc", arch="x64", attr="vectorcall", ints=INTS, vec=[16, 32, 64], positional=True),
     dict(name="x86-cdecl", env="x86linux", ccid=0, triple="i386-linux-gnu", arch="x86", attr="cdecl", ints=INTS, vec=[16, 32, 64], va=True),
     dict(name="x86-stdcall", env="x86linux", ccid=1, triple="i386-linux-gnu", arch="x86", attr="stdcall", ints=INTS, vec=[16, 32, 64]),
@@ -64,6 +70,12 @@ ABIS = [
     dict(name="aapcs64", env="a64linux", ccid=0, triple="aarch64-linux-gnu", arch="a64", attr="", ints=INTS, vec=[8, 16], va=True),
     dict(name="apple-arm64", env="a64apple", ccid=0, triple="arm64-apple-darwin", arch="a64", attr="", ints=INTS, vec=[8, 16], va=True),
 ]
+# registers that can carry arguments (caller-side probes look only at these when a value is handed over in a register)
+_ARGREGS = dict(sysv64=dict(gp=[7, 6, 2, 1, 8, 9], vec=list(range(8))), win64=dict(gp=[1, 2, 8, 9], vec=[0, 1, 2, 3]),
+                a64=dict(gp=list(range(8)), vec=list(range(8))), x86=dict(gp=[], vec=[]))
+for _a in ABIS:
+    _k = _a.get("keyas", _a["name"])
+    _a["argregs"] = _ARGREGS["a64" if _a["arch"] == "a64" else _k if _k in _ARGREGS else "x86"]
 ABI_BY_NAME = {a["name"]: a for a in ABIS}
 # light-call conventions: no C counterpart, internal consistency only
 LIGHT = [dict(name="lightcall%d-%s" % (n, e), env=env, ccid=14 + n, n=n, arch=arch) for n in (2, 3, 4) for e, env, arch in (("x64", "x64linux", "x64"), ("x86", "x86linux", "x86"))]
@@ -122,6 +134,56 @@ def gen_signature(seed, abi, idx):
         va = rng.randint(1, n)        # named arguments are [0, va); the variadic ones follow
     return dict(abi=abi["name"], ret=ret, args=args, va=va)
 
+def gen_va_signature(seed, abi, idx):
+    """Variadic-focused signatures: named arguments that exhaust one or both register classes and leave a named stack area made of
+    small types (so that it ends at offsets that are not multiples of 8 where the ABI packs them), followed by 1-7 unnamed
+    arguments of every class/size (small integers and float are promoted by needs_exclusion, like C does)."""
+    rng = random.Random("c06va:%d:%s:%d" % (seed, abi["name"], idx))
+    a64 = abi["arch"] == "a64"
+    small = [t for t in ("i8", "u8", "i16", "u16") if t in abi["ints"]]
+    wide = [t for t in ("i64", "u64", "iptr", "uptr") if t in abi["ints"]]
+    v16 = vecs(16) if 16 in abi["vec"] else []
+    v8 = vecs(8) if 8 in abi["vec"] else []
+    def pick_named():
+        r = rng.random()
+        if r < 0.34: return rng.choice(small)
+        if r < 0.54: return rng.choice(["i32", "u32"])
+        if r < 0.70: return "f32"
+        if r < 0.80: return rng.choice(wide)
+        if r < 0.90: return "f64"
+        if r < 0.95 and v16: return rng.choice(v16)
+        if v8: return rng.choice(v8)
+        return rng.choice(["i32", "f32"])
+    def pick_unnamed():
+        r = rng.random()
+        if r < 0.15: return rng.choice(small)          # promoted to int
+        if r < 0.35: return rng.choice(["i32", "u32"])
+        if r < 0.50: return rng.choice(wide)
+        if r < 0.60: return "f32"                        # promoted to double
+        if r < 0.75: return "f64"
+        if r < 0.90 and v16: return rng.choice(v16)
+        if v8: return rng.choice(v8)
+        return rng.choice(["i32", "f64"])
+    shape = rng.random()
+    if shape < 0.20: n_named = rng.randint(1, 4)
+    elif shape < 0.40: n_named = rng.randint(5, 8)
+    else: n_named = rng.randint(9, 22)
+    prof = rng.random()
+    if prof < 0.35:      # integers first (exhausts the GP registers quickly), then a small tail
+        named = [rng.choice(small + ["i32", "u32"] + wide) for _ in range(n_named)]
+    elif prof < 0.50:    # float-heavy
+        named = [rng.choice(["f32", "f32", "f64"]) for _ in range(n_named)]
+    else:
+        named = [pick_named() for _ in range(n_named)]
+    if n_named >= 9 and rng.random() < 0.6:
+        # make the tail of the named stack area small-grained
+        for j in range(rng.randint(1, 3)):
+            named[-1 - j] = rng.choice(small + ["i32", "f32"])
+    unnamed = [pick_unnamed() for _ in range(rng.randint(1, 7))]
+    args = (named + unnamed)[:32]
+    ret = "void" if rng.random() < 0.5 else rng.choice(["i32", "i64", "f64"] if "i64" in abi["ints"] else ["i32", "f64"])
+    return dict(abi=abi["name"], ret=ret, args=args, va=min(len(named), len(args) - 1))
+
 def sig_text(sig):
     return "abi=%s va=%d ret=%s args=%s" % (sig["abi"], sig["va"], sig["ret"], ",".join(sig["args"]) or "-")
 
@@ -161,7 +223,25 @@ def c_for_sig(k, sig, abi):
         vt = sig["args"][sig["va"]]
         out.append("void %ss%dp%dx(%s) { __builtin_va_list ap; __builtin_va_start(ap, a%d); sink_%s = __builtin_va_arg(ap, T_%s); __builtin_va_end(ap); }"
                    % (attr, k, 900, plist, len(named) - 1, vt, vt))
+    if has_caller_probe(sig):
+        # caller-side probe: every argument of the call is loaded from its own global (vs<k>_<i>); the data-flow pass over the caller
+        # finds the register / outgoing stack slot in which each of them sits at the call instruction
+        for i, t in enumerate(sig["args"]):
+            out.append("T_%s vs%d_%d;" % (t, k, i))
+        out.append("void %ss%dcallee(%s);" % (attr, k, plist))
+        out.append("void s%dcx(void) { s%dcallee(%s); sink_i32 = 1; }" % (k, k, ", ".join("vs%d_%d" % (k, i) for i in range(len(sig["args"])))))
+    if has_caller_probe(sig) and abi["name"] == "apple-arm64":
+        # callee-side walk: a variadic callee that fetches every unnamed argument with va_arg (Darwin's va_list is a plain pointer, so the
+        # addresses are sp + constant after folding `(p + 15) & ~15` with the 16-byte alignment of sp) and stores argument i to vk<k>_<i>
+        v0 = sig["va"]
+        for i in range(v0, len(sig["args"])):
+            out.append("T_%s vk%d_%d;" % (sig["args"][i], k, i))
+        body = " ".join("vk%d_%d = __builtin_va_arg(ap, T_%s);" % (k, i, sig["args"][i]) for i in range(v0, len(sig["args"])))
+        out.append("void %ss%dwx(%s) { __builtin_va_list ap; __builtin_va_start(ap, a%d); %s __builtin_va_end(ap); }" % (attr, k, plist, v0 - 1, body))
     return "\n".join(out) + "\n"
+
+def has_caller_probe(sig):
+    return sig["va"] != 255 and 1 <= sig["va"] < len(sig["args"])
 
 X64_CLOB = ["rax", "rbx", "rcx", "rdx", "rsi", "rdi", "rbp"] + ["r%d" % i for i in range(8, 16)] + ["xmm%d" % i for i in range(32)] + ["k%d" % i for i in range(8)]
 X86_CLOB = ["eax", "ebx", "ecx", "edx", "esi", "edi", "ebp"] + ["xmm%d" % i for i in range(8)] + ["k%d" % i for i in range(8)]
@@ -232,7 +312,7 @@ def split_functions(asm, comment_chars):
             lab = lab.replace("\\01", "")
             lab = re.sub(r"^[_@]+", "", lab)
             lab = re.sub(r"@.*$", "", lab)
-            if re.fullmatch(r"(s\d+(p\d+|r)x|presx|rz\d+x)", lab):
+            if re.fullmatch(r"(s\d+(p\d+|r|c|w)x|presx|rz\d+x)", lab):
                 cur = funcs.setdefault(lab, [])
             elif lab.startswith(("L", ".L", "l")) and cur is not None and re.match(r"^\.?[Ll]", lab):
                 pass           # local label inside a function
@@ -490,10 +570,343 @@ def analyse_a64(lines):
         fi.problems.append("unknown instruction: " + ln)
     return fi
 
+# ------------------------------------------------------------------------------------------------------------------
+# Caller-side probes: `void sKcx(void) { sKcallee(vsK_0, vsK_1, ...); }`. A forward data-flow pass over the straight-line code
+# before the call tags every register and every stack slot with the global its content was loaded from; at the call instruction
+# the slot (relative to sp at the call) or the argument register that holds vsK_i is where the caller passes argument i.
+#   tags: ("val", i, part)  value of vsK_i (part = byte offset inside the global, for values moved in pieces)
+#         ("addr", i)       a64: address of vsK_i under construction (adrp / add :lo12:)
+#         ("ptr", a)        address of the stack slot a (by-reference arguments: the value was copied to a temporary)
+# Slots that are read back are spill slots of the caller, never outgoing arguments. A value that sits both in an outgoing slot and
+# in a register is passed in the slot (the register is the temporary it was loaded into).
+# ------------------------------------------------------------------------------------------------------------------
+_VS_RE = re.compile(r"(?<![A-Za-z0-9])_?vs(\d+)_(\d+)(?![0-9])(?:@PAGEOFF|@PAGE)?(?:\+(\d+))?")
+
+class CInfo:
+    def __init__(self):
+        self.problems = []
+        self.args = {}        # argument index -> dict(kind=stack|reg|indirect-stack|indirect-reg, off=int, regs=[(group,id)])
+        self.call_seen = False
+
+def _caller_resolve(ci, abi, regtag, slottag, loaded, adj):
+    """State at the call instruction -> ci.args."""
+    argregs = set([("gp", i) for i in abi["argregs"]["gp"]] + [("vec", i) for i in abi["argregs"]["vec"]])
+    idxs = set()
+    for t in list(regtag.values()) + list(slottag.values()):
+        if t and t[0] == "val": idxs.add(t[1])
+    # temporaries that hold by-reference copies
+    copy_of = {a: t[1] for a, t in slottag.items() if t and t[0] == "val" and t[2] == 0 and a not in loaded}
+    for i in sorted(idxs):
+        ptr_regs = sorted(r for r, t in regtag.items() if t and t[0] == "ptr" and copy_of.get(t[1]) == i and r in argregs)
+        ptr_slots = sorted(a + adj for a, t in slottag.items() if t and t[0] == "ptr" and copy_of.get(t[1]) == i and a not in loaded and a + adj >= 0)
+        slots = sorted(a + adj for a, t in slottag.items() if t == ("val", i, 0) and a not in loaded and a + adj >= 0)
+        regs = sorted(r for r, t in regtag.items() if t == ("val", i, 0) and r in argregs)
+        if ptr_regs: ci.args[i] = dict(kind="indirect-reg", regs=ptr_regs)
+        elif ptr_slots: ci.args[i] = dict(kind="indirect-stack", off=ptr_slots[0])
+        elif slots: ci.args[i] = dict(kind="stack", off=slots[0])
+        elif regs: ci.args[i] = dict(kind="reg", regs=regs)
+
+def _vs_tag(text, kind="val"):
+    m = _VS_RE.search(text or "")
+    if not m: return None
+    return (kind, int(m.group(2)), int(m.group(3) or 0)) if kind == "val" else (kind, int(m.group(2)))
+
+def analyse_caller_x86(lines, ws, abi):
+    ci = CInfo(); regtag = {}; slottag = {}; loaded = set(); adj = 0
+    sp = ("gp", 4)
+    def parse_mem(op):
+        m = re.fullmatch(r"([^()]*)(?:\(([^)]*)\))?", op)
+        if not m or op.startswith(("%", "$")): return None
+        disp = m.group(1).strip(); inner = [x.strip() for x in (m.group(2) or "").split(",")]
+        base = x86_reg(inner[0]) if inner and inner[0] else None
+        index = x86_reg(inner[1]) if len(inner) > 1 and inner[1] else None
+        return disp, base, index
+    def slot_addr(pm):
+        # address of an sp-relative operand relative to the frame origin, or None
+        disp, base, index = pm
+        if base != sp or index is not None: return None
+        try: return (int(disp, 0) if disp else 0) - adj
+        except ValueError: return None
+    def src_tag(o):
+        if o.startswith("$"): return None
+        if o.startswith("%"): return regtag.get(x86_reg(o))
+        pm = parse_mem(o)
+        if pm is None: return None
+        if pm[1] == sp:
+            a = slot_addr(pm)
+            if a is None: return None
+            loaded.add(a)
+            return slottag.get(a)
+        if pm[1] is None or pm[1] == ("ip", 0):
+            return _vs_tag(pm[0])
+        return None
+    def set_dst(o, tag):
+        if o.startswith("%"):
+            r = x86_reg(o)
+            if r == sp: ci.problems.append("sp written: " + o); return
+            if r: regtag[r] = tag
+            return
+        pm = parse_mem(o)
+        if pm is None: return
+        if pm[1] == sp:
+            a = slot_addr(pm)
+            if a is None: ci.problems.append("unresolved sp-relative store: " + o); return
+            slottag[a] = tag; loaded.discard(a)
+    for ln in lines:
+        parts = ln.split(None, 1)
+        mn = parts[0]; ops = split_ops(parts[1]) if len(parts) > 1 else []
+        if mn.startswith("call") or (mn.startswith("jmp") and ops and "callee" in ops[0]):
+            if not (ops and "callee" in ops[0]): ci.problems.append("unexpected call: " + ln); break
+            ci.call_seen = True
+            _caller_resolve(ci, abi, regtag, slottag, loaded, adj)
+            break
+        if mn.startswith("ret"): break
+        if mn in ("vzeroupper", "nop", "cld") or mn.startswith("#"): continue
+        if mn.startswith("push") and len(ops) == 1:
+            t = src_tag(ops[0]); adj += ws; slottag[-adj] = t; loaded.discard(-adj); continue
+        if mn.startswith("pop"):
+            ci.problems.append("pop before the call: " + ln); continue
+        if len(ops) == 2 and ops[1].startswith("%") and x86_reg(ops[1]) == sp:
+            if mn[:3] in ("sub", "add") and ops[0].startswith("$"):
+                v = int(ops[0][1:], 0); adj += v if mn.startswith("sub") else -v; continue
+            if mn.startswith("and") and ops[0].startswith("$"):
+                # dynamic realignment: the frame origin is unknown from here on, restart at the realigned sp (only sp-relative offsets
+                # at the call matter); everything stored so far is out of reach
+                adj = 0; slottag.clear(); loaded.clear(); continue
+            if mn.startswith("mov") or mn.startswith("lea"):
+                ci.problems.append("sp written by an unmodelled instruction: " + ln); continue
+        if mn.startswith("lea") and len(ops) == 2:
+            pm = parse_mem(ops[0]); a = slot_addr(pm) if pm and pm[1] == sp else None
+            set_dst(ops[1], ("ptr", a) if a is not None else None); continue
+        if mn.startswith(("mov", "vmov")) and len(ops) == 2:
+            set_dst(ops[1], src_tag(ops[0])); continue
+        if mn.startswith(("xor", "vxor", "vpxor", "pxor", "sub", "add", "and", "or", "shl", "shr", "sar", "cvt", "vcvt", "cwt", "cltq", "cdq", "cbtw", "movz", "movs")):
+            # value-producing instruction that is not a plain copy: the destination carries no argument any more
+            if ops: set_dst(ops[-1], None)
+            elif mn in ("cltq", "cwtl", "cbtw"): regtag[("gp", 0)] = None
+            continue
+        ci.problems.append("unknown instruction: " + ln)
+    if not ci.call_seen and not ci.problems: ci.problems.append("no call found")
+    return ci
+
+_A64_RSIZE = dict(w=4, x=8, b=1, h=2, s=4, d=8, q=16)
+def analyse_caller_a64(lines, abi):
+    ci = CInfo(); regtag = {}; slottag = {}; loaded = set(); adj = 0
+    sp = ("gp", 31)
+    def mem(op):
+        m = re.fullmatch(r"\[([^\],]+)(?:,\s*([^\]]+))?\](!?)", op)
+        if not m: return None
+        return a64_reg(m.group(1)), m.group(2), m.group(3) == "!"
+    def imm_of(txt):
+        if txt is None: return 0
+        if txt.startswith("#"):
+            try: return int(txt[1:], 0)
+            except ValueError: return None
+        return None
+    for ln in lines:
+        parts = ln.split(None, 1)
+        mn = parts[0]; ops = split_ops(parts[1]) if len(parts) > 1 else []
+        if mn in ("bl", "b"):
+            if not (ops and "callee" in ops[0]): ci.problems.append("unexpected branch: " + ln); break
+            ci.call_seen = True
+            _caller_resolve(ci, abi, regtag, slottag, loaded, adj)
+            break
+        if mn == "ret": break
+        if mn in ("nop", "hint", "bti", "paciasp", "autiasp", "pacibsp", "autibsp"): continue
+        if mn in ("sub", "add") and len(ops) >= 3 and a64_reg(ops[0]) == sp and a64_reg(ops[1]) == sp and ops[2].startswith("#"):
+            v = int(ops[2][1:], 0)
+            if len(ops) > 3:
+                mm = re.fullmatch(r"lsl\s+#(\d+)", ops[3]); v <<= int(mm.group(1)) if mm else 0
+            adj += v if mn == "sub" else -v; continue
+        if ops and a64_reg(ops[0]) == sp and not mn.startswith(("st", "ld")):
+            ci.problems.append("sp written by an unmodelled instruction: " + ln); continue
+        if mn in ("adrp", "adr"):
+            regtag[a64_reg(ops[0])] = _vs_tag(ops[1], "addr"); continue
+        if mn == "add" and len(ops) == 3 and _VS_RE.search(ops[2]):
+            t = regtag.get(a64_reg(ops[1]))
+            regtag[a64_reg(ops[0])] = t if t and t[0] == "addr" and t == _vs_tag(ops[2], "addr") else None; continue
+        if mn == "add" and len(ops) == 3 and a64_reg(ops[1]) == sp and ops[2].startswith("#"):
+            regtag[a64_reg(ops[0])] = ("ptr", int(ops[2][1:], 0) - adj); continue
+        if mn == "mov" and len(ops) == 2 and a64_reg(ops[1]) == sp and ops[1].strip() == "sp":
+            regtag[a64_reg(ops[0])] = ("ptr", -adj); continue
+        is_load = mn.startswith(("ldr", "ldur", "ldp", "ldnp"))
+        is_store = mn.startswith(("str", "stur", "stp", "stnp"))
+        if is_load or is_store:
+            nreg = 2 if mn.startswith(("ldp", "stp", "ldnp", "stnp")) else 1
+            rnames = [o.strip() for o in ops[:nreg]]
+            regs = [a64_reg(o) for o in rnames]
+            pm = mem(ops[nreg]) if len(ops) > nreg else None
+            post = imm_of(ops[nreg + 1]) if len(ops) > nreg + 1 else None
+            if pm is None: ci.problems.append("unparsed memory operand: " + ln); continue
+            base, offtxt, pre = pm
+            rsz = _A64_RSIZE.get(rnames[0][0], 8)
+            if mn.startswith(("ldrb", "ldrsb", "strb", "sturb", "ldurb", "ldursb")): rsz = 1
+            if mn.startswith(("ldrh", "ldrsh", "strh", "sturh", "ldurh", "ldursh")): rsz = 2
+            if mn.startswith(("ldrsw", "ldursw", "ldpsw")): rsz = 4
+            if base == sp:
+                imm = imm_of(offtxt)
+                if imm is None: ci.problems.append("symbolic sp offset: " + ln); continue
+                if pre: adj -= imm; a0 = -adj
+                else: a0 = imm - adj
+                for k, r in enumerate(regs):
+                    a = a0 + k * rsz
+                    if is_load:
+                        loaded.add(a)
+                        if r: regtag[r] = slottag.get(a)
+                    else:
+                        slottag[a] = regtag.get(r) if r else None; loaded.discard(a)
+                if post is not None and len(ops) > nreg + 1: adj -= post
+                continue
+            if is_load:
+                bt = regtag.get(base)
+                for k, r in enumerate(regs):
+                    if not r: continue
+                    if bt and bt[0] == "addr":
+                        extra = 0
+                        if offtxt:
+                            vt = _vs_tag(offtxt)
+                            if vt is not None:
+                                if vt[1] != bt[1]: ci.problems.append("address of one global, offset of another: " + ln)
+                                extra = vt[2]
+                            else:
+                                extra = imm_of(offtxt)
+                                if extra is None: ci.problems.append("unparsed offset: " + ln); extra = 0
+                        regtag[r] = ("val", bt[1], extra + k * rsz)
+                    else:
+                        regtag[r] = None
+                if len(ops) > nreg + 1 or pre: regtag[base] = None
+                continue
+            # store through a register: the sink global behind the call or a by-reference temporary addressed through a copy of sp
+            bt = regtag.get(base)
+            if bt and bt[0] == "ptr":
+                imm = imm_of(offtxt)
+                if imm is None: ci.problems.append("unparsed offset: " + ln); continue
+                for k, r in enumerate(regs):
+                    slottag[bt[1] + imm + k * rsz] = regtag.get(r) if r else None
+            continue
+        if mn in ("mov", "fmov", "sxtb", "sxth", "sxtw", "uxtb", "uxth") and len(ops) == 2 and not ops[1].startswith("#"):
+            regtag[a64_reg(ops[0])] = regtag.get(a64_reg(ops[1].split(".")[0]) or a64_reg(ops[1])); continue
+        if mn in ("mov", "fmov", "movz", "movn", "movk", "movi", "orr", "and", "eor", "dup", "ins", "fcvt", "scvtf", "ucvtf", "ubfx", "sbfx", "lsl", "lsr", "asr", "mvni"):
+            r = a64_reg(ops[0].split(".")[0]) or a64_reg(ops[0])
+            if r: regtag[r] = None
+            continue
+        ci.problems.append("unknown instruction: " + ln)
+    if not ci.call_seen and not ci.problems: ci.problems.append("no call found")
+    return ci
+
+_VK_RE = re.compile(r"(?<![A-Za-z0-9])_?vk(\d+)_(\d+)(?![0-9])")
+def analyse_vawalk_a64(lines):
+    """Apple arm64 `va_arg` walk (see c_for_sig): registers are followed symbolically as `entry sp + constant` (sp is 16-byte aligned at
+    function entry, so `and x, x, #~15` of such a value is again entry sp + constant). -> CInfo, args[i] = slot the callee reads argument i from."""
+    ci = CInfo(); ci.call_seen = True
+    sym = {}; val = {}; addr = {}; slots = {}; adj = 0
+    sp = ("gp", 31)
+    def clear(r):
+        sym.pop(r, None); val.pop(r, None); addr.pop(r, None)
+    def imm_of(txt):
+        if txt is None: return 0
+        if txt.startswith("#"):
+            try: return int(txt[1:], 0)
+            except ValueError: return None
+        return None
+    for ln in lines:
+        parts = ln.split(None, 1)
+        mn = parts[0]; ops = split_ops(parts[1]) if len(parts) > 1 else []
+        if mn == "ret": break
+        if mn in ("nop", "hint", "bti", "paciasp", "autiasp", "pacibsp", "autibsp"): continue
+        regs0 = a64_reg(ops[0].split(".")[0]) if ops else None
+        if mn in ("sub", "add") and len(ops) == 3 and ops[2].startswith("#") and not _VK_RE.search(ops[2]):
+            d, n, v = a64_reg(ops[0]), a64_reg(ops[1]), int(ops[2][1:], 0)
+            if mn == "sub": v = -v
+            if d == sp and n == sp: adj -= v; continue
+            if d == sp: ci.problems.append("sp written: " + ln); continue
+            base = -adj if n == sp else sym.get(n)
+            clear(d)
+            if base is not None: sym[d] = base + v
+            continue
+        if mn == "add" and len(ops) == 3 and _VK_RE.search(ops[2]):
+            d, n = a64_reg(ops[0]), a64_reg(ops[1]); t = addr.get(n); clear(d)
+            if t is not None: addr[d] = t
+            continue
+        if mn in ("and", "orr") and len(ops) == 3 and ops[2].startswith("#"):
+            d, n, v = a64_reg(ops[0]), a64_reg(ops[1]), int(ops[2][1:], 0)
+            base = sym.get(n); clear(d)
+            if base is not None:
+                if mn == "and":
+                    low = (~v) & 0xFFFFFFFFFFFFFFFF            # cleared bits must be a low mask of at most 4 bits (sp alignment)
+                    if low in (1, 3, 7, 15): sym[d] = base - (base % (low + 1))
+                    else: ci.problems.append("unmodelled mask: " + ln)
+                else:
+                    if 0 < v < 16 and base % 16 & v == 0: sym[d] = base + v
+                    else: ci.problems.append("unmodelled orr: " + ln)
+            continue
+        if mn in ("adrp", "adr"):
+            d = a64_reg(ops[0]); clear(d); m = _VK_RE.search(ops[1])
+            if m: addr[d] = int(m.group(2))
+            continue
+        if mn in ("mov", "fmov", "sxtw", "sxtb", "sxth", "uxtb", "uxth") and len(ops) == 2 and not ops[1].startswith("#"):
+            d = a64_reg(ops[0].split(".")[0]) or a64_reg(ops[0]); n = a64_reg(ops[1].split(".")[0]) or a64_reg(ops[1])
+            sv, vv, av = (-adj if n == sp else sym.get(n)), val.get(n), addr.get(n)
+            clear(d)
+            if sv is not None: sym[d] = sv
+            if vv is not None: val[d] = vv
+            if av is not None: addr[d] = av
+            continue
+        is_load = mn.startswith(("ldr", "ldur", "ldp", "ldnp"))
+        is_store = mn.startswith(("str", "stur", "stp", "stnp"))
+        if is_load or is_store:
+            nreg = 2 if mn.startswith(("ldp", "stp", "ldnp", "stnp")) else 1
+            rnames = [o.strip() for o in ops[:nreg]]
+            regs = [a64_reg(o) for o in rnames]
+            m = re.fullmatch(r"\[([^\],]+)(?:,\s*([^\]]+))?\](!?)", ops[nreg]) if len(ops) > nreg else None
+            if not m: ci.problems.append("unparsed memory operand: " + ln); continue
+            base = a64_reg(m.group(1)); offtxt = m.group(2); pre = m.group(3) == "!"
+            post = imm_of(ops[nreg + 1]) if len(ops) > nreg + 1 else None
+            rsz = _A64_RSIZE.get(rnames[0][0], 8)
+            if mn.startswith(("ldrsw", "ldursw", "ldpsw")): rsz = 4
+            mk = _VK_RE.search(offtxt or "")
+            if is_store and (mk or (base in addr and base != sp)):
+                j = int(mk.group(2)) if mk else addr[base]
+                r = regs[0]
+                if nreg != 1 or r not in val: ci.problems.append("sink stored from an untracked register: " + ln); continue
+                if j in ci.args: ci.problems.append("argument %d sunk twice" % j); continue
+                ci.args[j] = dict(kind="stack", off=val[r])
+                continue
+            imm = imm_of(offtxt)
+            if imm is None: ci.problems.append("unparsed offset: " + ln); continue
+            b = -adj if base == sp else sym.get(base)
+            if b is None:
+                if is_load:
+                    for r in regs:
+                        if r: clear(r)
+                    continue
+                ci.problems.append("store through an untracked pointer: " + ln); continue
+            if pre:
+                b += imm
+                if base == sp: adj -= imm
+                else: sym[base] = b
+                a0 = b
+            else: a0 = b + imm
+            for kk, r in enumerate(regs):
+                a = a0 + kk * rsz
+                if is_load:
+                    if r is None: continue
+                    clear(r)
+                    if a >= 0: val[r] = a
+                    elif slots.get(a) is not None: sym[r] = slots[a]
+                else:
+                    slots[a] = sym.get(r) if r else None
+            if post is not None:
+                if base == sp: adj -= post
+                else: sym[base] = b + post
+            continue
+        ci.problems.append("unknown instruction: " + ln)
+    return ci
+
 def analyse(abi, asm):
     if abi["arch"] == "a64":
         funcs = split_functions(asm, ["//", ";"])
-        return {k: analyse_a64(v) for k, v in funcs.items()}
+        return {k: (analyse_caller_a64(v, abi) if k.endswith("cx") else analyse_vawalk_a64(v) if k.endswith("wx") else analyse_a64(v)) for k, v in funcs.items()}
     funcs = split_functions(asm, ["#"] if False else [])
     # keep '#APP' markers: strip only trailing comments that start with whitespace + '#'
     out = {}
@@ -505,7 +918,8 @@ def analyse(abi, asm):
                 continue
             p = ln.find("#")
             cleaned.append(ln[:p].rstrip() if p >= 0 else ln)
-        out[k] = analyse_x86([c for c in cleaned if c], ptr_size(abi))
+        cleaned = [c for c in cleaned if c]
+        out[k] = analyse_caller_x86(cleaned, ptr_size(abi), abi) if k.endswith("cx") else analyse_x86(cleaned, ptr_size(abi))
     return out
 
 # ------------------------------------------------------------------------------------------------------------------
@@ -688,6 +1102,84 @@ def subsets(xs):
         out += [s + [x] for s in out]
     return sorted(out, key=len)
 
+def _named_stack_end(abi, sig, ref, named):
+    return max([l["off"] + (ptr_size(abi) if l["kind"] == "indirect-stack" else tsize(abi, sig["args"][i]))
+                for i, l in ref.items() if i < named and l["kind"] in ("stack", "indirect-stack")] + [0])
+
+def rule_unnamed_locations(abi, sig, ref):
+    """Where the written ABI puts the unnamed arguments of a variadic call, given where clang's callee finds the named ones.
+    -> {arg index: location} or None when a named argument has no reference location.
+      Apple arm64 ("Writing ARM64 code for Apple platforms", "Update code that passes arguments to variadic functions"): every unnamed
+        argument is passed on the stack, after the (packed) named stack arguments, in its own 8-byte aligned slot of 8 bytes
+        (16 bytes, 16-byte aligned for 16-byte types).
+      AAPCS64 / SysV x86-64: unnamed arguments are allocated exactly like named ones (next free register of their class, then 8-byte
+        stack slots, 16-byte types 16-byte aligned).   Win64: positional (argument i owns rcx/rdx/r8/r9 | xmm0-3 or [8*i]; a floating
+        point value in xmm<i> is duplicated in the integer register; 16-byte vectors by reference).   i386 cdecl: everything on the
+        stack in 4-byte slots, 16-byte vectors 16-byte aligned (clang/gcc on Linux)."""
+    key = abi_key(abi); v0 = sig["va"]; n = len(sig["args"])
+    if any(i not in ref for i in range(v0)): return None
+    up = lambda x, a: (x + a - 1) // a * a
+    out = {}
+    end = _named_stack_end(abi, sig, ref, v0)
+    if key == "apple-arm64":
+        cur = end
+        for i in range(v0, n):
+            sz = tsize(abi, sig["args"][i])
+            cur = up(cur, 16 if sz >= 16 else 8)
+            out[i] = dict(kind="stack", off=cur); cur += max(sz, 8)
+        return out
+    if key in ("aapcs64", "sysv64"):
+        gp_order = abi["argregs"]["gp"]; nvec = 8
+        gp_used = vec_used = 0
+        for i in range(v0):
+            c = TYPES[sig["args"][i]]["cls"]; l = ref[i]
+            if l["kind"] == "reg":
+                if c == "i": gp_used += 1
+                else: vec_used += 1
+            elif l["kind"] == "stack":
+                if c == "i": gp_used = len(gp_order)
+                elif tsize(abi, sig["args"][i]) <= 16: vec_used = nvec
+            else: return None
+        cur = up(end, 8)
+        for i in range(v0, n):
+            t = sig["args"][i]; c = TYPES[t]["cls"]; sz = tsize(abi, t)
+            if c == "i" and gp_used < len(gp_order):
+                out[i] = dict(kind="reg", regs=[("gp", gp_order[gp_used])]); gp_used += 1
+            elif c != "i" and vec_used < nvec:
+                out[i] = dict(kind="reg", regs=[("vec", vec_used)]); vec_used += 1
+            else:
+                if c == "i": gp_used = len(gp_order)
+                else: vec_used = nvec
+                cur = up(cur, 16 if sz >= 16 else 8)
+                out[i] = dict(kind="stack", off=cur); cur += up(sz, 8)
+        return out
+    if key == "win64":
+        gp = abi["argregs"]["gp"]
+        for i in range(v0, n):
+            t = sig["args"][i]; c = TYPES[t]["cls"]; sz = tsize(abi, t)
+            byref = c == "v" and sz > 8
+            if i < 4:
+                if byref: out[i] = dict(kind="indirect-reg", regs=[("gp", gp[i])])
+                elif c == "i": out[i] = dict(kind="reg", regs=[("gp", gp[i])])
+                else: out[i] = dict(kind="reg", regs=[("gp", gp[i]), ("vec", i)])
+            else:
+                out[i] = dict(kind="indirect-stack" if byref else "stack", off=8 * i)
+        return out
+    if key == "x86-cdecl":
+        cur = up(end, 4)
+        for i in range(v0, n):
+            t = sig["args"][i]; sz = tsize(abi, t)
+            cur = up(cur, 16 if (TYPES[t]["cls"] == "v" and sz >= 16) else 4)
+            out[i] = dict(kind="stack", off=cur); cur += up(sz, 4)
+        return out
+    return None
+
+def same_location(a, b):
+    """Two reference locations agree (register lists: one common register is enough - Win64 duplicates floats in GP and XMM)."""
+    if a["kind"] != b["kind"]: return False
+    if a["kind"] in ("stack", "indirect-stack"): return a["off"] == b["off"]
+    return bool(set(a["regs"]) & set(b["regs"]))
+
 def compare_signature(abi, sig, fis, aj, known_keys, stats):
     """-> list of (key, msg). Known findings are counted in stats['known'] and not returned."""
     key = abi_key(abi)
@@ -767,7 +1259,7 @@ def compare_signature(abi, sig, fis, aj, known_keys, stats):
         else:
             fail("%s-stack-offset" % key, stack_mismatch[0][1])
     # --- Apple arm64: unnamed arguments of a variadic function always travel on the stack (8-byte slots); the first one is located by
-    #     a clang probe (`va_arg` right after `va_start`), the others are judged for their class only
+    #     a clang probe (`va_arg` right after `va_start`); (the block after this one locates all of them, on every ABI)
     if key == "apple-arm64" and sig["va"] != 255 and sig["va"] < len(sig["args"]):
         v0 = sig["va"]
         fi9 = fis.get("p900")
@@ -784,7 +1276,90 @@ def compare_signature(abi, sig, fis, aj, known_keys, stats):
             pack = aj["args"][v0]
             stats["cls"]["apple-variadic-first-arg-probed"] = stats["cls"].get("apple-variadic-first-arg-probed", 0) + 1
             if not any(v["kind"] == "reg" for v in pack) and stack_ok and pack and pack[0]["kind"] == "stack" and pack[0]["off"] != off:
-                fail("apple-arm64-variadic-args-in-registers", "[va_index ignored] first unnamed arg %d (%s): clang va_arg reads [sa+%d], AsmJit %s" % (v0, sig["args"][v0], off, fmt_aj(pack)))
+                fail("apple-arm64-variadic-stack-offset", "first unnamed arg %d (%s): clang va_arg reads [sa+%d], AsmJit %s" % (v0, sig["args"][v0], off, fmt_aj(pack)))
+    # --- every unnamed argument of a variadic signature: located by clang's caller (where it stores / in which register it hands over
+    #     each argument of a call `f(named..., v1, v2, ...)`) and by the written ABI rule; AsmJit must agree with both
+    va_ends = None
+    if has_caller_probe(sig) and abi.get("va"):
+        v0 = sig["va"]; an = abi["name"]
+        def cnt(name, n=1): stats["cls"][name] = stats["cls"].get(name, 0) + n
+        cnt("variadic-signature:%s" % an)
+        ci = fis.get("c")
+        clang_loc = {}
+        if ci is None or ci.problems:
+            cnt("variadic-caller-probe-unparsed")
+            stats.setdefault("unparsed", []).append("%s caller probe: %s" % (sig_text(sig), ci.problems[:2] if ci else "missing"))
+        else:
+            # the caller-side reading is trusted only if it agrees with the callee-side probes on every named argument
+            bad = [i for i in range(v0) if i in ref and ref[i]["kind"] != "split" and (i not in ci.args or not same_location(ref[i], ci.args[i]))]
+            if bad:
+                cnt("variadic-caller-probe-inconsistent")
+                stats.setdefault("unparsed", []).append("%s caller probe disagrees with the callee probe on named arg %d: callee %s, caller %s"
+                                                        % (sig_text(sig), bad[0], fmt_loc(ref[bad[0]]), fmt_loc(ci.args[bad[0]]) if bad[0] in ci.args else "not found"))
+            else:
+                clang_loc = {i: ci.args[i] for i in range(v0, len(sig["args"])) if i in ci.args}
+                if key != "win64":
+                    for i, l in list(clang_loc.items()):
+                        if l["kind"] in ("reg", "indirect-reg") and len(l["regs"]) != 1: del clang_loc[i]
+        rule_loc = rule_unnamed_locations(abi, sig, ref) or {}
+        walk_loc = {}
+        cw = fis.get("w")
+        if cw is not None:
+            if cw.problems or any(i not in cw.args for i in range(v0, len(sig["args"]))):
+                cnt("variadic-va_arg-walk-unparsed")
+                stats.setdefault("unparsed", []).append("%s va_arg walk: %s" % (sig_text(sig), cw.problems[:2] or "argument not found"))
+            else:
+                walk_loc = cw.args
+        if len(ref) == named:
+            e = _named_stack_end(abi, sig, ref, named)
+            if e % 8: cnt("variadic-named-stack-area-ends-unaligned(mod 8):%s" % an)
+            elif e: cnt("variadic-named-stack-area-ends-aligned:%s" % an)
+            else: cnt("variadic-no-named-stack-area:%s" % an)
+        va_fail = False; refs_disagree = False
+        for i in range(v0, len(sig["args"])):
+            t = sig["args"][i]; pack = aj["args"][i] if i < len(aj["args"]) else []
+            cl, wl, rl = clang_loc.get(i), walk_loc.get(i), rule_loc.get(i)
+            refs = [(h, l) for h, l in (("located_by_clang", cl), ("located_by_clang_va_arg_walk", wl), ("judged_by_rule", rl)) if l is not None]
+            if cl is None and wl is None: cnt("variadic-unnamed-not-located-by-clang:%s" % an)
+            if not refs: continue
+            dis = [(h1, l1, h2, l2) for x, (h1, l1) in enumerate(refs) for (h2, l2) in refs[x + 1:] if not same_location(l1, l2)]
+            if dis:
+                # the references disagree among themselves (the harness' reading of the ABI document versus clang, or clang's caller versus
+                # clang's callee): not AsmJit's problem, never judged, always reported
+                cnt("variadic-references-disagree"); refs_disagree = True
+                stats.setdefault("unparsed", []).append("%s unnamed arg %d: %s says %s, %s says %s" % (sig_text(sig), i, dis[0][0], fmt_loc(dis[0][1]), dis[0][2], fmt_loc(dis[0][3])))
+                break
+            cnt("variadic-unnamed:%s:%s" % ({"i": "int", "f": "fp", "v": "vec"}[TYPES[t]["cls"]] + str(tsize(abi, t) * 8), refs[0][1]["kind"]))
+            for how, l in refs:
+                cnt("variadic_unnamed_%s:%s" % (how, an))
+                src = {"located_by_clang": "clang's caller passes it in", "located_by_clang_va_arg_walk": "clang's va_arg reads it from",
+                       "judged_by_rule": "the ABI rule puts it in"}[how]
+                desc = "unnamed variadic arg %d (%s): %s %s, AsmJit %s" % (i, t, src, fmt_loc(l), fmt_aj(pack))
+                if not pack or any(v["kind"] == "unassigned" for v in pack):
+                    fail("%s-arg-unassigned" % key, desc); va_fail = True; break
+                a_regs = [(v["group"], v["id"]) for v in pack if v["kind"] == "reg"]
+                a_stack = [v["off"] for v in pack if v["kind"] == "stack"]
+                a_ind = any(v["indirect"] for v in pack)
+                want_ind = l["kind"].startswith("indirect")
+                if l["kind"] in ("stack", "indirect-stack"):
+                    if a_regs or a_ind != want_ind:
+                        fail("apple-arm64-variadic-args-in-registers" if key == "apple-arm64" and a_regs else "%s-variadic-arg-class" % key, desc); va_fail = True; break
+                    if a_stack[0] != l["off"]:
+                        if stack_ok: fail("%s-variadic-stack-offset" % key, desc)
+                        va_fail = True; break
+                else:
+                    if a_stack or a_ind != want_ind:
+                        fail("%s-variadic-arg-class" % key, desc); va_fail = True; break
+                    if len(a_regs) != 1 or a_regs[0] not in l["regs"]:
+                        fail("%s-variadic-arg-reg" % key, desc); va_fail = True; break
+            if va_fail: break      # later arguments are consequences
+        size_loc = clang_loc if all(i in clang_loc for i in range(v0, len(sig["args"]))) else walk_loc
+        if not va_fail and stack_ok and len(ref) == named and all(i in size_loc for i in range(v0, len(sig["args"]))) and not refs_disagree:
+            va_ends = []
+            for i, l in size_loc.items():
+                if i < v0: continue
+                if l["kind"] == "stack": va_ends.append(l["off"] + max(tsize(abi, sig["args"][i]), 8 if key == "apple-arm64" else 0))
+                elif l["kind"] == "indirect-stack": va_ends.append(l["off"] + ptr_size(abi))
     # --- total stack area / callee pops
     fi0 = fis.get("p0")
     if fi0 is not None and not fi0.problems and abi["arch"] == "x86":
@@ -793,8 +1368,11 @@ def compare_signature(abi, sig, fis, aj, known_keys, stats):
             fail("%s-callee-pop" % key, "clang callee returns with ret %d, AsmJit callee cleanup %d (arg stack size %d)" % (want_pop, aj["cleanup"], aj["stack"]))
         elif want_pop and stack_ok and aj["cleanup"] != want_pop:
             fail("%s-stack-size" % key, "clang callee pops %d bytes, AsmJit %d" % (want_pop, aj["cleanup"]))
-    if stack_ok and sig["va"] == 255:
+    if stack_ok and (sig["va"] == 255 or va_ends is not None):
         ends = [l["off"] + (ptr_size(abi) if l["kind"] == "indirect-stack" else tsize(abi, sig["args"][i])) for i, l in ref.items() if l["kind"] in ("stack", "indirect-stack")]
+        if va_ends is not None:
+            ends += va_ends
+            if ends: stats["cls"]["variadic-stack-size-checked"] = stats["cls"].get("variadic-stack-size-checked", 0) + 1
         if ends and len(ref) == named:
             ws = 8 if abi["arch"] != "x86" else 4
             want = (max(ends) + ws - 1) // ws * ws
@@ -962,7 +1540,7 @@ def needs_exclusion(abi, sig, stats, known_keys=()):
         for i in range(sig["va"], len(sig["args"])):
             t = sig["args"][i]
             if t in promo: sig["args"][i] = promo[t]
-            elif TYPES[t]["cls"] == "v" and TYPES[t]["size"] != 16: sig["args"][i] = "i32x4"
+            elif TYPES[t]["cls"] == "v" and TYPES[t]["size"] != 16 and not (TYPES[t]["size"] == 8 and abi["arch"] == "a64"): sig["args"][i] = "i32x4"
     if key.startswith("x86-regparm") and known_match(known_keys, "x86-int64-split-between-reg-and-stack"):
         free = int(key[-1])
         for i, t in enumerate(sig["args"]):
@@ -997,8 +1575,7 @@ def process_batch(abi, batch, with_fixed):
     """batch: [(k, sig)] -> (asm analysis per signature, fixed-probe analysis, error text)"""
     tn = set(["i32"])
     for _, s in batch:
-        named = s["args"] if s["va"] == 255 else s["args"][:s["va"] + 1]
-        tn.update(named)
+        tn.update(s["args"])
         if s["ret"] != "void": tn.add(s["ret"])
     src = c_prelude(tn) + "".join(c_for_sig(k, s, abi) for k, s in batch)
     if with_fixed: src += c_fixed_probes(abi)
@@ -1008,7 +1585,7 @@ def process_batch(abi, batch, with_fixed):
     fa = analyse(abi, out)
     per = {}
     for name, fi in fa.items():
-        m = re.fullmatch(r"s(\d+)(p\d+|r)x", name)
+        m = re.fullmatch(r"s(\d+)(p\d+|r|c|w)x", name)
         if m: per.setdefault(int(m.group(1)), {})[m.group(2)] = fi
     fixed = {n: fi for n, fi in fa.items() if n == "presx" or n.startswith("rz")}
     return per, fixed, None, src
@@ -1091,6 +1668,9 @@ def run(part, tier, seed, pdir, rep_dir, known_keys, log):
     for abi in ABIS:
         n = max(4, int(per_abi * abi.get("weight", 1.0)))
         sigs_by_abi[abi["name"]] = [needs_exclusion(abi, gen_signature(seed, abi, i), pre_stats, known_keys) for i in range(n)]
+        if abi.get("va"):
+            nv = max(4, int(tcfg.get("va_sigs_per_abi", per_abi // 2) * abi.get("weight", 1.0)))
+            sigs_by_abi[abi["name"]] += [needs_exclusion(abi, gen_va_signature(seed, abi, i), pre_stats, known_keys) for i in range(nv)]
     stats, fails = evaluate(sigs_by_abi, known_keys, log)
     for k, v in pre_stats["cls"].items(): stats["cls"][k] = stats["cls"].get(k, 0) + v
     # fixed trigger signatures of the classes excluded above
@@ -1171,7 +1751,7 @@ def _standalone_run(seed, n):
         if m: known.append(m.group(1))
     import tempfile
     d = tempfile.mkdtemp(prefix="c06abi-")
-    part = dict(quick=dict(sigs_per_abi=n, light_sigs=n))
+    part = dict(quick=dict(sigs_per_abi=n, va_sigs_per_abi=max(4, n * 2 // 3), light_sigs=n))
     res = run(part, "quick", seed, d, d, known, print)
     print("evaluations", res["evaluations"], "nontrivial", res["nontrivial_evals"], "known", res["known_hits"])
     for k, pth, m in res["violations"]: print("VIOLATION", k, "::", m[:400])
